@@ -174,6 +174,8 @@ structure DumpModel where
   extra : List (Nat × List UInt8)
   miscInfo : Option MMiscInfo := none
   handles : Option MHandleData := none
+  /-- the entries of `/proc/<pid>/maps` (the `LinuxMaps` text stream) -/
+  linuxMaps : Option (List MapEntry) := none
   deriving DecidableEq, Repr
 
 /-! ## integers and records -/
@@ -433,6 +435,49 @@ def encHandleData (e : Endian) (off : Nat) (x : MHandleData) : List UInt8 :=
 
 def handleDataSize (x : MHandleData) : Nat := 16 + handleDescSize x.v2 * x.handles.length
 
+/-! ### Linux maps: a text stream, one line per entry (no out-of-band data)
+
+    `<lo:016x>-<hi:016x> <perms> <offset:016x> <major:08x>:<minor:08x> <inode:020> <path>\n` — fixed
+    widths, lower-case hex (the kernel pads differently; the parser does not care). -/
+
+def ST_LINUX_MAPS : Nat := ST_LinuxMaps
+
+def digitByte (d : Nat) : UInt8 := if d < 10 then UInt8.ofNat (48 + d) else UInt8.ofNat (87 + d)
+
+/-- exactly `w` digits of `n` in base `b` (≤ 16), most significant first -/
+def fixedDigits (b : Nat) : Nat → Nat → List UInt8
+  | 0, _ => []
+  | w + 1, n => fixedDigits b w (n / b) ++ [digitByte (n % b)]
+
+/-- `rwx` or `-` each, then `s` and/or `p` (a `-` when neither) -/
+def encPerms (p : Nat) : List UInt8 :=
+  [if p % 2 = 1 then 114 else 45, if p / 2 % 2 = 1 then 119 else 45, if p / 4 % 2 = 1 then 120 else 45] ++
+  (if p / 8 % 2 = 1 then [115] else []) ++ (if p / 16 % 2 = 1 then [112] else []) ++
+  (if p / 8 % 4 = 0 then [45] else [])
+
+def encMapPath : MapPath → List UInt8
+  | .path p => p
+  | .heap => S_HEAP
+  | .stack => S_STACK
+  | .tstack tid => S_STACK_COLON ++ fixedDigits 10 10 tid ++ [93]
+  | .vdso => S_VDSO
+  | .vvar => S_VVAR
+  | .vsyscall => S_VSYSCALL
+  | .rollup => S_ROLLUP
+  | .anonymous => []
+  | .vsys key => S_SYSV ++ fixedDigits 16 8 key
+  | .other s => [91] ++ s ++ [93]
+
+/-- one line without its terminator -/
+def mapLineBody (x : MapEntry) : List UInt8 :=
+  fixedDigits 16 16 x.lo ++ [45] ++ fixedDigits 16 16 x.hi ++ [32] ++ encPerms x.perms ++ [32] ++
+  fixedDigits 16 16 x.offset ++ [32] ++ fixedDigits 16 8 x.devMajor ++ [58] ++ fixedDigits 16 8 x.devMinor ++ [32] ++
+  fixedDigits 10 20 x.inode ++ [32] ++ encMapPath x.path
+
+def encLinuxMaps : List MapEntry → List UInt8
+  | [] => []
+  | x :: xs => mapLineBody x ++ [10] ++ encLinuxMaps xs
+
 /-! ## the whole file -/
 
 /-- sizes of the out-of-band groups -/
@@ -469,7 +514,8 @@ def coreStreamSizes (m : DumpModel) (f : MemForm) : List (Nat × Nat) :=
   optList m.exception (fun _ => (ST_EXCEPTION, 168)) ++
   optList m.sysInfo (fun _ => (ST_SYSTEM_INFO, 56)) ++
   optList m.miscInfo (fun x => (ST_MISC_INFO, miscInfoSize x)) ++
-  optList m.handles (fun x => (ST_HANDLE_DATA_STREAM, handleDataSize x))
+  optList m.handles (fun x => (ST_HANDLE_DATA_STREAM, handleDataSize x)) ++
+  optList m.linuxMaps (fun x => (ST_LINUX_MAPS, (encLinuxMaps x).length))
 
 def streamSizes (m : DumpModel) (f : MemForm) : List (Nat × Nat) :=
   m.extra.map (fun x => (x.1, x.2.length)) ++ coreStreamSizes m f
@@ -530,7 +576,8 @@ def coreStreams (m : DumpModel) (e : Endian) (f : MemForm) : List (Nat × List U
   optList m.exception (fun x => (ST_EXCEPTION, encException e o.exc x)) ++
   optList m.sysInfo (fun s => (ST_SYSTEM_INFO, encSysInfo e o.csd s)) ++
   optList m.miscInfo (fun x => (ST_MISC_INFO, encMiscInfo e x)) ++
-  optList m.handles (fun x => (ST_HANDLE_DATA_STREAM, encHandleData e o.handles x))
+  optList m.handles (fun x => (ST_HANDLE_DATA_STREAM, encHandleData e o.handles x)) ++
+  optList m.linuxMaps (fun x => (ST_LINUX_MAPS, encLinuxMaps x))
 
 def allStreams (m : DumpModel) (e : Endian) (f : MemForm) : List (Nat × List UInt8) :=
   m.extra ++ coreStreams m e f
@@ -644,6 +691,7 @@ structure Reported where
   sysInfo : Except Err RSysInfo
   miscInfo : Except Err MiscInfo
   handles : Except Err (List RHandle)
+  linuxMaps : Except Err (List MapEntry)
 
 def sliceList (b : Bytes) (s e : Nat) : List UInt8 := (b.extract s e).toList
 
@@ -726,6 +774,7 @@ def decode (b : Bytes) : Res Reported :=
     Res.bind (streamRes d b ST_SYSTEM_INFO (fun s => readSystemInfo s b e)) fun sys =>
     Res.bind (streamRes d b ST_MISC_INFO (fun s => readMiscInfo s e)) fun misc =>
     Res.bind (streamRes d b ST_HANDLE_DATA_STREAM (fun s => readHandleData ms s b e)) fun handles =>
+    Res.bind (streamRes d b ST_LINUX_MAPS (fun s => readLinuxMaps s)) fun maps =>
     .ok { endian := e, flags := d.header.flags,
           threads := threads.map (·.map (rthreadOf b)),
           modules := modules.map (·.map (mmoduleOf e)),
@@ -736,7 +785,8 @@ def decode (b : Bytes) : Res Reported :=
           exception := exc.map (rexceptionOf b),
           sysInfo := sys,
           miscInfo := misc,
-          handles := handles.map (·.map rhandleOf) }
+          handles := handles.map (·.map rhandleOf),
+          linuxMaps := maps }
 
 /-! ## the model as the reader reports it -/
 
@@ -790,7 +840,10 @@ def report (m : DumpModel) (e : Endian) (f : MemForm) : Reported :=
       | some x => .ok ⟨x.ver, x.vals⟩,
     handles := match m.handles with
       | none => .error .StreamNotFound
-      | some x => .ok (x.handles.map (reportHandle x.v2)) }
+      | some x => .ok (x.handles.map (reportHandle x.v2)),
+    linuxMaps := match m.linuxMaps with
+      | none => .error .StreamNotFound
+      | some x => .ok x }
 
 /-! ## memory lookup: `memory_at_address` + `get_memory_at_address::<u8>` -/
 
@@ -1087,6 +1140,31 @@ def parseHandleData (s : String) : Option (Option MHandleData) :=
     | _, _ => none
   | _ => none
 
+/-- path := `a` anonymous | `h` heap | `s` stack | `d` vdso | `v` vvar | `y` vsyscall | `r` rollup |
+    `t<tid>` | `k<key>` | `o<hex>` other | `p<hex>` path -/
+def parseMapPath (s : String) : Option MapPath :=
+  if s == "a" then some .anonymous else if s == "h" then some .heap else if s == "s" then some .stack
+  else if s == "d" then some .vdso else if s == "v" then some .vvar else if s == "y" then some .vsyscall
+  else if s == "r" then some .rollup
+  else if s.startsWith "t" then (Proto.optNat (s.drop 1).toString).map .tstack
+  else if s.startsWith "k" then (Proto.optNat (s.drop 1).toString).map .vsys
+  else if s.startsWith "o" then (Proto.unhex (s.drop 1).toString).map .other
+  else if s.startsWith "p" then (Proto.unhex (s.drop 1).toString).map .path
+  else none
+
+def parseMapEntry : List String → Option MapEntry
+  | [lo, hi, perms, off, maj, min, ino, path] =>
+    match [lo, hi, perms, off, maj, min, ino].mapM Proto.optNat, parseMapPath path with
+    | some [lo, hi, perms, off, maj, min, ino], some path => some ⟨lo, hi, perms, off, maj, min, ino, path⟩
+    | _, _ => none
+  | _ => none
+
+/-- `-` | `[<entry>;<entry>…]` -/
+def parseLinuxMaps (s : String) : Option (Option (List MapEntry)) :=
+  if s == "-" then some none
+  else if s.startsWith "[" && s.endsWith "]" then (parseList parseMapEntry ((s.drop 1).dropEnd 1).toString).map some
+  else none
+
 def parseExtra : List String → Option (Nat × List UInt8)
   | [ty, bytes] =>
     match Proto.optNat ty, parseBytes bytes with
@@ -1124,6 +1202,10 @@ def parseOptional (m : DumpModel) : List String → Option DumpModel
     else if t.startsWith "H=" then
       match field "H=" t >>= parseHandleData with
       | some h => parseOptional { m with handles := h } rest
+      | none => none
+    else if t.startsWith "L=" then
+      match field "L=" t >>= parseLinuxMaps with
+      | some l => parseOptional { m with linuxMaps := l } rest
       | none => none
     else none
 
@@ -1209,6 +1291,34 @@ def showHandle (h : RHandle) : String :=
   s!"{h.grantedAccess},{h.handleCount},{h.pointerCount}," ++
   Proto.joinWith "/" (h.infos.map fun (t, sz) => s!"{t}:{sz}")
 
+def showMapPath : MapPath → String
+  | .path p => "p" ++ Proto.hex p
+  | .heap => "h" | .stack => "s" | .vdso => "d" | .vvar => "v" | .vsyscall => "y" | .rollup => "r" | .anonymous => "a"
+  | .tstack tid => s!"t{tid}"
+  | .vsys key => s!"k{key}"
+  | .other x => "o" ++ Proto.hex x
+
+def showMapEntry (x : MapEntry) : String :=
+  s!"{x.lo},{x.hi},{x.perms},{x.offset},{x.devMajor},{x.devMinor},{x.inode},{showMapPath x.path}"
+
+/-- `MinidumpLinuxMaps::from_regions` [2591]: `(memory_range(), index)` through `into_rangemap_safe`
+    (C08's model; `memory_range()` = `mkRangeMap lo hi`, the final address taken as inclusive) -/
+def mapsTable (xs : List MapEntry) : List RangeMap.Entry :=
+  RangeMap.safeVec (xs.zipIdx.map fun (x, i) => (RangeMap.mkRangeMap x.lo x.hi, i))
+
+/-- `memory_info_at_address` around both ends of every entry: `<addr>:<index|~>` -/
+def showMapProbes (xs : List MapEntry) : String :=
+  let addrs := xs.flatMap fun x =>
+    (if x.lo > 0 then [x.lo - 1] else []) ++ [x.lo, x.hi] ++ (if x.hi < U64MAX then [x.hi + 1] else [])
+  Proto.joinWith "," (addrs.map fun a =>
+    match RangeMap.get (mapsTable xs) a with
+    | none => s!"{a}:~"
+    | some i => s!"{a}:{i}")
+
+def showLinuxMaps : Except Err (List MapEntry) → String
+  | .error e => "err " ++ e.name
+  | .ok xs => "[" ++ Proto.joinWith ";" (xs.map showMapEntry) ++ "]|" ++ showMapProbes xs
+
 /-- the probe addresses of a region list: around both ends of every region -/
 def probeAddrs (rs : List MRegion) : List Nat :=
   rs.flatMap fun r =>
@@ -1239,7 +1349,8 @@ def showReported (r : Reported) : String :=
     "X=" ++ showException r.exception,
     "S=" ++ showSysInfo r.sysInfo,
     "Y=" ++ showMiscInfo r.miscInfo,
-    "H=" ++ showList showHandle r.handles]
+    "H=" ++ showList showHandle r.handles,
+    "L=" ++ showLinuxMaps r.linuxMaps]
 
 def showEndian : Endian → String
   | .little => "le"
